@@ -13,6 +13,8 @@ import (
 	"path/filepath"
 	"runtime/debug"
 	"strings"
+	gosync "sync"
+	"sync/atomic"
 	"time"
 
 	"verifharness/c16lib"
@@ -36,6 +38,27 @@ type spec struct {
 	Opts   plangen.Opts
 	Kinds  []int
 	Tamper string // valid plans only: how the stored plan is altered (through the vault) before Start
+	Family string // "seq" (one case after another), "second-use", "concurrent"
+	Base   int    // index whose PRNG fork generates the plan (second-use: the group's first index)
+	Rekey  bool   // second-use: every key replaced by a fresh v7 key
+}
+
+// index space: [0,nSeq) sequential cases, [nSeq,nSeq+nSecond) the second-use family (groups of 20 on the
+// same Workstream, run by the sequential child right after the sequential cases), then nConc concurrent cases.
+var nSeq, nSecond, nConc int
+
+// mutations that make a plan malformed (second-use family: every other Submit must be a rejection)
+var invalidating = []string{"key-dup-cross-level", "key-dup-same-kind", "name-empty", "timeout-1ns", "nil-element-insert",
+	"key-v4", "request-plugin-rejects", "attempts-one", "descr-whitespace", "plugin-unknown", "key-dup-with-checks",
+	"state-preset-zero", "empty-slice", "id-preset-v7"}
+
+func kindIndex(name string) int {
+	for i, k := range c16lib.Kinds {
+		if k.Name == name {
+			return i
+		}
+	}
+	panic("unknown mutation kind " + name)
 }
 
 // tampers: "u:" = after a real Submit, through the vault's Update methods; "c:" = the plan is given ids,
@@ -50,9 +73,44 @@ var tampers = []string{
 func specOf(i int) spec {
 	r := core.NewRand(core.Seed()).Fork(uint64(i))
 	rk := r.Fork(1)
-	s := spec{Index: i, Opts: plangen.Opts{
+	s := spec{Index: i, Family: "seq", Base: i, Opts: plangen.Opts{
 		GroupP: []float64{0.15, 0.3, 0.5, 0.8}[i%4], MaxBlocks: 1 + i%3, MaxSeqs: 1 + (i/3)%3, MaxActions: 1 + (i/9)%3,
 		KeyP: []float64{0.1, 0.4, 0.8}[(i/2)%3], AltP: 0.2}}
+	if i >= nSeq && i < nSeq+nSecond {
+		// second use: 20 Submits in a row of the SAME plan (names, plugin names, nonce, key values), alternately
+		// malformed and well formed; in the second half of a group the keys are fresh v7 keys each time
+		j := (i - nSeq) % 20
+		g := i - j
+		s.Family, s.Base, s.Rekey = "second-use", g, j >= 10
+		s.Opts = plangen.Opts{GroupP: 0.5, MaxBlocks: 2, MaxSeqs: 2, MaxActions: 3, KeyP: 0.9, AltP: 0.2}
+		if j%2 == 0 {
+			s.Kinds = []int{kindIndex(invalidating[rk.Intn(len(invalidating))])}
+			if j == 0 || j == 6 || j == 14 {
+				// a rejection that comes after keys have already gone into the key set
+				s.Kinds = []int{kindIndex([]string{"key-dup-cross-level", "key-dup-same-kind", "key-dup-with-checks"}[j%3])}
+			}
+		}
+		return s
+	}
+	if i >= nSeq+nSecond {
+		// concurrent: bigger plans (validation takes longer, malformations sit late in the walk more often)
+		s.Family = "concurrent"
+		s.Opts = plangen.Opts{GroupP: []float64{0.3, 0.6}[i%2], MaxBlocks: 2 + i%2, MaxSeqs: 3, MaxActions: 3,
+			KeyP: []float64{0.2, 0.6}[(i/2)%2], AltP: 0.2}
+		if i%3 == 0 {
+			return s
+		}
+		n := 1 + rk.Weighted([]int{5, 3, 2})
+		for len(s.Kinds) < n {
+			s.Kinds = append(s.Kinds, rk.Intn(len(c16lib.Kinds)))
+		}
+		for k, kk := range s.Kinds { // Submit(nil) is covered sequentially
+			if c16lib.Kinds[kk].Name == "nil-plan" {
+				s.Kinds[k] = kindIndex("name-empty")
+			}
+		}
+		return s
+	}
 	if i%5 == 0 {
 		if (i/5)%2 == 1 {
 			s.Tamper = tampers[(i/10)%len(tampers)]
@@ -78,19 +136,35 @@ type built struct {
 	plan   *workflow.Plan
 	did    []string
 	regset bool
+	nonce  string
+	name   string // plan name as generated (before mutations)
 }
 
 // build generates the plan of a spec; every call with the same spec yields an equal, unshared plan.
 func build(s spec, set *c16lib.Set, forSubmit bool) built {
-	r := core.NewRand(core.Seed()).Fork(uint64(s.Index)).Fork(2)
+	r := core.NewRand(core.Seed()).Fork(uint64(s.Base)).Fork(2)
 	g := plangen.New(r, s.Opts)
 	p := g.Plan()
+	if s.Family == "second-use" {
+		r = core.NewRand(core.Seed()).Fork(uint64(s.Index)).Fork(4) // mutation targets differ from Submit to Submit
+		if s.Rekey {
+			for _, ob := range c16lib.Objects(p) {
+				if k := ob.Key(); k != nil && *k != uuid.Nil {
+					*k = plangen.V7(r)
+				}
+			}
+		}
+	}
+	if s.Family == "concurrent" {
+		p.Name = fmt.Sprintf("%s #%d", p.Name, s.Index) // unique: rows of this plan can be found by name
+	}
 	m := &c16lib.M{R: r, G: g, P: p, Reg: set.Reg, ForSubmit: forSubmit}
+	name := p.Name
 	did := m.Mutate(s.Kinds)
 	if m.NilPlan {
-		return built{plan: nil, did: did}
+		return built{plan: nil, did: did, nonce: g.Nonce, name: name}
 	}
-	return built{plan: p, did: did, regset: m.RegSet}
+	return built{plan: p, did: did, regset: m.RegSet, nonce: g.Nonce, name: name}
 }
 
 func planTerm(cx *plancoq.Ctx, p *workflow.Plan) string {
@@ -231,8 +305,9 @@ func mkCase(g generated, o obs, storedTerm, startTerm string) core.Case {
 		Nontrivial: len(did) > 0 || g.objects > 3,
 		Hash:       core.Hash(g.termS, g.termV, startTerm, fmt.Sprint(o.Validate, o.Submit, o.Delta, o.Stored, o.Start)),
 		Dist: map[string]any{"mutations": did, "requested": len(g.spec.Kinds), "objects": g.objects,
-			"validate": o.Validate, "submit": o.Submit, "start": o.Start, "tamper": g.spec.Tamper},
-		Input:    map[string]any{"seed": core.Seed(), "index": g.spec.Index, "opts": g.spec.Opts, "kinds": kindNames(g.spec.Kinds), "applied": did},
+			"validate": o.Validate, "submit": o.Submit, "start": o.Start, "tamper": g.spec.Tamper, "family": g.spec.Family},
+		Input: map[string]any{"seed": core.Seed(), "index": g.spec.Index, "opts": g.spec.Opts, "kinds": kindNames(g.spec.Kinds), "applied": did,
+			"family": g.spec.Family, "base": g.spec.Base, "rekey": g.spec.Rekey, "nseq": nSeq, "nsecond": nSecond, "nconc": nConc},
 		Observed: o,
 	}
 	if o.Panic != "" {
@@ -519,10 +594,231 @@ func workerMain(from, to, startEvery int, dir string) {
 	os.Exit(0)
 }
 
+// ---------------------------------------------------------------- concurrent batch (child)
+
+type citem struct {
+	g      generated
+	bV, bS built
+	o      obs
+	id     uuid.UUID
+	t0, t1 time.Time
+}
+
+// parallel runs f on every item from `par` goroutines that start together.
+func parallel(items []*citem, par int, f func(*citem)) {
+	var wg gosync.WaitGroup
+	var next atomic.Int64
+	startGate := make(chan struct{})
+	for k := 0; k < par; k++ {
+		wg.Add(1)
+		go func() {
+			defer wg.Done()
+			<-startGate
+			for {
+				j := int(next.Add(1)) - 1
+				if j >= len(items) {
+					return
+				}
+				f(items[j])
+			}
+		}()
+	}
+	close(startGate)
+	wg.Wait()
+}
+
+func (w *worker) count(q string, args ...any) int {
+	n := -1
+	err := sqlitex.ExecuteTransient(w.conn, q, &sqlitex.ExecOptions{Args: args,
+		ResultFunc: func(stmt *sqlite.Stmt) error { n = stmt.ColumnInt(0); return nil }})
+	if err != nil {
+		fmt.Fprintln(os.Stderr, "count:", q, err)
+	}
+	return n
+}
+
+// rowsOfPlan counts the rows that belong to one plan id.
+func (w *worker) rowsOfPlan(id uuid.UUID) (c [5]int) {
+	c[0] = w.count("SELECT COUNT(*) FROM plans WHERE id = ?;", id.String())
+	for i, t := range tables[1:] {
+		c[i+1] = w.count("SELECT COUNT(*) FROM "+t+" WHERE plan_id = ?;", id.String())
+	}
+	return c
+}
+
+// traces counts what a rejected Submit left behind: rows under the id the submitted object may have been
+// given, a plan row with this case's (unique) plan name, action rows whose request carries this case's nonce.
+func (w *worker) traces(it *citem) (c [5]int) {
+	if p := it.bS.plan; p != nil && p.ID != uuid.Nil {
+		c = w.rowsOfPlan(p.ID)
+	}
+	if n := w.count("SELECT COUNT(*) FROM plans WHERE name = ?;", it.bS.name); n > c[0] {
+		c[0] = n
+	}
+	if n := w.count("SELECT COUNT(*) FROM actions WHERE CAST(req AS TEXT) LIKE ?;", "%"+it.bS.nonce+"%"); n > c[4] {
+		c[4] = n
+	}
+	return c
+}
+
+func concWorkerMain(from, to, par int, dir string) {
+	w, err := newWorker(dir)
+	if err != nil {
+		fmt.Fprintln(os.Stderr, "worker setup:", err)
+		os.Exit(4)
+	}
+	ctx := context.Background()
+	var items []*citem
+	for i := from; i < to; i++ {
+		g := generate(i, w.set)
+		it := &citem{g: g, bV: build(g.spec, w.set, false), bS: build(g.spec, w.set, true),
+			o: obs{Validate: 3, Submit: 3, Start: 3, Fresh: true}}
+		c16lib.SetRegisters(it.bV.plan, w.set.Reg)
+		items = append(items, it)
+	}
+	// phase A: workflow.Validate from `par` goroutines at once
+	parallel(items, par, func(it *citem) {
+		var err error
+		if p := guard(func() { err = workflow.Validate(it.bV.plan) }); p != "" {
+			it.o.Validate, it.o.Panic, it.o.Taint = 2, "workflow.Validate: "+p, true
+			return
+		}
+		it.o.Validate = code(err)
+		if err != nil {
+			it.o.Errs = append(it.o.Errs, "Validate: "+err.Error())
+		}
+	})
+	// phase B: Workstream.Submit from `par` goroutines at once, on ONE Workstream
+	before := w.rows()
+	parallel(items, par, func(it *citem) {
+		var err error
+		it.t0 = time.Now()
+		if p := guard(func() { it.id, err = w.ws.Submit(ctx, it.bS.plan) }); p != "" {
+			it.o.Submit, it.o.Taint = 2, true
+			if it.o.Panic == "" {
+				it.o.Panic = "Workstream.Submit: " + p
+			}
+		} else {
+			it.o.Submit = code(err)
+			if err != nil {
+				it.o.Errs = append(it.o.Errs, "Submit: "+err.Error())
+			}
+		}
+		it.t1 = time.Now()
+	})
+	after := w.rows()
+	// phase C: what each Submit left in the store, per plan
+	out := bufio.NewWriterSize(os.Stdout, 1<<20)
+	enc := json.NewEncoder(out)
+	var expect [5]int
+	for _, it := range items {
+		storedTerm := "None"
+		o := &it.o
+		switch o.Submit {
+		case 1:
+			o.Delta = w.rowsOfPlan(it.id)
+			cnt := c16lib.Counts(it.bS.plan)
+			for k := range expect {
+				expect[k] += cnt[k]
+			}
+			var sp *workflow.Plan
+			sp, storedTerm = w.readBack(it.g.cx, it.id, o)
+			if sp != nil {
+				o.Stored = true
+				o.Flags[0] = sp.ID == it.id
+				o.Flags[1] = true
+				for _, ob := range c16lib.Objects(sp) {
+					if w.seen[*ob.ID()] {
+						o.Flags[1] = false
+					}
+				}
+				for _, ob := range c16lib.Objects(sp) {
+					w.seen[*ob.ID()] = true
+				}
+				st := sp.SubmitTime
+				o.Flags[2] = !st.Before(it.t0.Add(-time.Second)) && !st.After(it.t1.Add(time.Second))
+				for _, ob := range c16lib.Objects(sp) {
+					if ob.Kind == c16lib.KAction && ob.InChecks {
+						if _, chk, _ := w.set.Lookup(ob.A.Plugin, ob.A.Req); !chk {
+							w.start(it.id, o) // a refusal is expected: nothing runs
+							break
+						}
+					}
+				}
+			}
+		default:
+			o.Delta = w.traces(it)
+		}
+		enc.Encode(line{Idx: it.g.spec.Index, Case: mkCase(it.g, *o, storedTerm, "None"), Obs: *o})
+	}
+	// the whole batch: the tables grew by exactly the objects of the accepted plans
+	for k := range expect {
+		if after[k]-before[k] != expect[k] {
+			note := fmt.Sprintf("concurrent batch of %d Submits: the tables %v grew by %v but the accepted plans have %v objects",
+				len(items), tables, [5]int{after[0] - before[0], after[1] - before[1], after[2] - before[2], after[3] - before[3], after[4] - before[4]}, expect)
+			enc.Encode(line{Idx: -1, Case: core.Case{ID: "c16-batch", Kind: "batch", Note: note}})
+			break
+		}
+	}
+	out.Flush()
+	os.Exit(0)
+}
+
+// runConc runs the concurrent batch in a child and returns its lines (and what went wrong, if anything).
+func runConc(self, dir string, from, to, par int) (map[int]line, []line, string) {
+	cmd := exec.Command(self, "-concworker", "-from", fmt.Sprint(from), "-to", fmt.Sprint(to), "-par", fmt.Sprint(par), "-db", dir,
+		"-n", fmt.Sprint(nSeq), "-second", fmt.Sprint(nSecond), "-conc", fmt.Sprint(nConc))
+	cmd.Env = os.Environ()
+	var stderr, stdout strings.Builder
+	cmd.Stderr, cmd.Stdout = &stderr, &stdout
+	if err := cmd.Start(); err != nil {
+		return nil, nil, err.Error()
+	}
+	done := make(chan error, 1)
+	go func() { done <- cmd.Wait() }()
+	problem := ""
+	select {
+	case err := <-done:
+		if err != nil {
+			problem = fmt.Sprintf("the child running the concurrent batch exited with %v", err)
+		}
+	case <-time.After(240 * time.Second):
+		cmd.Process.Kill()
+		<-done
+		problem = "the child running the concurrent batch produced no result within 240 s (hang)"
+	}
+	got := map[int]line{}
+	var extra []line
+	sc := bufio.NewScanner(strings.NewReader(stdout.String()))
+	sc.Buffer(make([]byte, 1<<20), 1<<28)
+	for sc.Scan() {
+		var l line
+		if json.Unmarshal(sc.Bytes(), &l) == nil {
+			if l.Idx < 0 {
+				extra = append(extra, l)
+			} else {
+				got[l.Idx] = l
+			}
+		}
+	}
+	if problem != "" {
+		tail := stderr.String()
+		if len(tail) > 3000 {
+			tail = tail[len(tail)-3000:]
+		}
+		problem += "\n" + tail
+	}
+	return got, extra, problem
+}
+
 // ---------------------------------------------------------------- parent
 
 func main() {
-	n := flag.Int("n", 400, "number of cases")
+	n := flag.Int("n", 400, "number of sequential cases")
+	second := flag.Int("second", 60, "number of second-use cases (groups of 20 Submits of one plan on the same Workstream)")
+	conc := flag.Int("conc", 400, "number of cases submitted concurrently on one Workstream")
+	par := flag.Int("par", 8, "goroutines of the concurrent batch")
+	isConc := flag.Bool("concworker", false, "run the concurrent batch in this process (child mode)")
 	outp := flag.String("out", "-", "output file (JSONL)")
 	isWorker := flag.Bool("worker", false, "run cases in this process (child mode)")
 	from := flag.Int("from", 0, "first case (child mode)")
@@ -531,7 +827,12 @@ func main() {
 	startEvery := flag.Int("start-every", 3, "call Start on every k-th accepted plan (0 = only where a refusal is expected)")
 	only := flag.Int("only", -1, "run just this case index")
 	flag.Parse()
+	nSeq, nSecond, nConc = *n, *second, *conc
 
+	if *isConc {
+		concWorkerMain(*from, *to, *par, *dir)
+		return
+	}
 	if *isWorker {
 		workerMain(*from, *to, *startEvery, *dir)
 		return
@@ -556,15 +857,21 @@ func main() {
 	defer os.RemoveAll(base)
 	set := c16lib.NewSet()
 
-	lo, hi := 0, *n
+	lo, hi := 0, nSeq+nSecond
 	if *only >= 0 {
 		lo, hi = *only, *only+1
+		if *only >= nSeq+nSecond {
+			lo, hi = 0, 0
+		} else if *only >= nSeq {
+			lo = *only - (*only-nSeq)%20 // a second-use case is replayed with its group
+		}
 	}
 	next, children := lo, 0
 	for next < hi {
 		children++
 		cmd := exec.Command(self, "-worker", "-from", fmt.Sprint(next), "-to", fmt.Sprint(hi),
-			"-db", filepath.Join(base, fmt.Sprintf("w%d", children)), "-start-every", fmt.Sprint(*startEvery))
+			"-db", filepath.Join(base, fmt.Sprintf("w%d", children)), "-start-every", fmt.Sprint(*startEvery),
+			"-n", fmt.Sprint(nSeq), "-second", fmt.Sprint(nSecond), "-conc", fmt.Sprint(nConc))
 		cmd.Env = os.Environ()
 		var stderr strings.Builder
 		cmd.Stderr = &stderr
@@ -598,7 +905,9 @@ func main() {
 					break read
 				}
 				if l.Idx == next {
-					w.Put(l.Case)
+					if *only < 0 || l.Idx == *only {
+						w.Put(l.Case)
+					}
 					next++
 				}
 			case <-time.After(90 * time.Second):
@@ -623,8 +932,34 @@ func main() {
 				tail = tail[len(tail)-3000:]
 			}
 			o := obs{Validate: 4, Submit: 3, Start: 3, Fresh: true, Panic: what + "\n" + tail, Taint: true}
-			w.Put(mkCase(g, o, "None", "None"))
+			if *only < 0 || next == *only {
+				w.Put(mkCase(g, o, "None", "None"))
+			}
 			next++
+		}
+	}
+
+	// the concurrent batch, in a child of its own (fresh Workstream, fresh vault)
+	cfrom, cto := nSeq+nSecond, nSeq+nSecond+nConc
+	if nConc > 0 && (*only < 0 || *only >= cfrom) {
+		got, extra, problem := runConc(self, filepath.Join(base, "conc"), cfrom, cto, *par)
+		missing := 0
+		for i := cfrom; i < cto; i++ {
+			l, ok := got[i]
+			if !ok {
+				missing++
+				continue
+			}
+			if *only < 0 || i == *only {
+				w.Put(l.Case)
+			}
+		}
+		for _, l := range extra {
+			w.Put(l.Case)
+		}
+		if problem != "" || missing > 0 {
+			w.Put(core.Case{ID: "c16-batch-crash", Kind: "batch",
+				Note: fmt.Sprintf("concurrent batch: %d of %d cases reported nothing. %s", missing, cto-cfrom, problem)})
 		}
 	}
 }
